@@ -74,6 +74,9 @@ fn kid_for(flav: u8, level: usize) -> KidSpec {
 
 const FAR_END: i64 = 2_700_000_000;
 
+/// purposes 2, 3, 4: extended key usages that are not among the named ones (OpenSSL is not asked about them)
+pub const CUSTOM_PURPOSES: [&[u64]; 3] = [&[1, 3, 6, 1, 4, 1, 55555, 1, 1], &[1, 3, 6, 1, 4, 1, 55555, 1, 2], &[1, 2, 3, 4]];
+
 fn tspec(unix: i64, flav: u8, end: bool) -> TimeSpec {
 	let unix = if flav >= 2 && end && unix == T[9] { FAR_END } else { unix };
 	TimeSpec {
@@ -200,7 +203,14 @@ fn expected(c: &ChainSpec) -> (bool, bool, Vec<String>) {
 		}
 	}
 	// purpose
-	if !c.leaf_ekus.is_empty() {
+	if c.purpose >= 2 {
+		// a custom purpose (webpki `KeyUsage::required_if_present`, applied to every certificate of the path:
+		// the CAs here carry no extended key usages): a leaf that lists purposes must list exactly that OID
+		let want = EkuSpec::Other(CUSTOM_PURPOSES[(c.purpose - 2) as usize].to_vec());
+		if !c.leaf_ekus.is_empty() && !c.leaf_ekus.contains(&want) {
+			fail(false, true, "custom purpose not among the leaf's extended key usages".into());
+		}
+	} else if !c.leaf_ekus.is_empty() {
 		let want = if c.purpose == 0 { EkuSpec::ServerAuth } else { EkuSpec::ClientAuth };
 		if !c.leaf_ekus.contains(&want) {
 			fail(true, true, "requested purpose not among the leaf's extended key usages".into());
@@ -450,6 +460,20 @@ fn directed() -> Vec<(String, ChainSpec)> {
 			v.push((format!("eku:set{}:purpose{}", i, purpose), c));
 		}
 	}
+	// custom purposes: same-shaped lists that differ only in the OID, asked for each of the three
+	let other = |k: usize| EkuSpec::Other(CUSTOM_PURPOSES[k].to_vec());
+	for round in 0..3 {
+		for k in 0..3usize {
+			for (si, set) in [vec![other(k)], vec![EkuSpec::ClientAuth, other(k)], vec![other(k), other((k + 1) % 3)], vec![]].into_iter().enumerate() {
+				for purpose in 2..5u8 {
+					let mut c = base(1);
+					c.leaf_ekus = set.clone();
+					c.purpose = purpose;
+					v.push((format!("eku-custom:round{}:oid{}:set{}:purpose{}", round, k, si, purpose), c));
+				}
+			}
+		}
+	}
 	// CA key usage sets with / without keyCertSign
 	for ku in [0u16, 1 << 5, (1 << 5) | (1 << 6), 1 << 6, 1, 1 | (1 << 6), 0b1_1101_1111, 0b1_1111_1111, 1 << 4, (1 << 5) | 1] {
 		let mut c = base(1);
@@ -510,6 +534,17 @@ fn random_case(rng: &mut Rng) -> ChainSpec {
 	if rng.chance(1, 3) {
 		c.leaf_ekus = rng.pick(&[vec![EkuSpec::ServerAuth], vec![EkuSpec::ClientAuth], vec![EkuSpec::CodeSigning], vec![EkuSpec::ServerAuth, EkuSpec::ClientAuth]]).clone();
 		c.purpose = rng.below(2) as u8;
+		if rng.chance(1, 4) {
+			// a custom purpose, with a leaf that has it, has another one of the same shape, or has none
+			c.purpose = 2 + rng.below(3) as u8;
+			let k = rng.below(3) as usize;
+			c.leaf_ekus = match rng.below(4) {
+				0 => vec![],
+				1 => vec![EkuSpec::Other(CUSTOM_PURPOSES[k].to_vec())],
+				2 => vec![EkuSpec::ClientAuth, EkuSpec::Other(CUSTOM_PURPOSES[k].to_vec())],
+				_ => vec![EkuSpec::Other(CUSTOM_PURPOSES[k].to_vec()), EkuSpec::ServerAuth],
+			};
+		}
 	}
 	c
 }
@@ -549,7 +584,11 @@ pub fn run(ctx: &Ctx, pool: &[PoolKey]) {
 		let trust = vec![built.root.der().to_vec()];
 		// OpenSSL
 		let mut o = VerifyOpts::at(spec.at);
-		o.purpose = Some(if spec.purpose == 0 { X509PurposeId::SSL_SERVER } else { X509PurposeId::SSL_CLIENT });
+		o.purpose = match spec.purpose {
+			0 => Some(X509PurposeId::SSL_SERVER),
+			1 => Some(X509PurposeId::SSL_CLIENT),
+			_ => None,
+		};
 		// OpenSSL counts the notAfter second itself as expired (X509_cmp_time never returns "equal"), RFC 5280
 		// counts it as valid: that instant is judged by webpki only.
 		let on_end = spec.at == spec.leaf_window.1 || spec.at == spec.root.window.1 || spec.inters.iter().any(|x| x.window.1 == spec.at);
